@@ -85,4 +85,12 @@ theorem serElementForms_correct : ∀ f ∈ (serElementForms : List (String × (
   simp only [serElementForms, List.forall_mem_cons]
   repeat' (first | constructor | (intro enc m e; first | trivial | rfl | (cases m <;> simp)) | (intro f hf; simp at hf))
 
+/-! ### `Hash for Element | AffinePoint` -/
+
+/-- what reaches the hasher is exactly the encoder's output on the element (never a coordinate of the stored point) -/
+theorem hashForms_correct {β : Type} : ∀ f ∈ (hashForms : List (String × ((α → β) → α → β))),
+    ∀ (enc : α → β) (e : α), f.2 enc e = enc e := by
+  simp only [hashForms, List.forall_mem_cons]
+  repeat' (first | constructor | (intro enc e; first | trivial | rfl) | (intro f hf; simp at hf))
+
 end Formulas.ConvForms
